@@ -304,10 +304,44 @@ Definition input_read (e : env) (m : machine) (inp nbytes : Z) : result (option 
   | _, _ => Fault F_internal
   end.
 
-Definition out_write (m : machine) (o : Z) (vs_rev : list Z) : result machine :=   (* vs_rev: most recent first *)
+(* the operations of ForthOutputBuffer on the observable content *)
+Inductive bop := BWrite (vs_rev : list Z)      (* write_one_* / write_* : items already cast, most recent first *)
+               | BAdd (d : dtype) (v : Z)      (* write_add_int32/64 *)
+               | BDup (n : Z)                  (* dup *)
+               | BRewind (n : Z).              (* rewind *)
+Inductive bres := BOk (b : outbuf) | BErr (err : Z) | BFault (kind : Z).
+
+Definition buf_apply (b : outbuf) (op : bop) : bres :=
+  match op with
+  | BWrite vs => BOk (vs ++ b)
+  | BAdd d v => BOk (add_out d (match b with [] => 0 | x :: _ => x end) v :: b)
+  | BDup n => match b with
+              | [] => BErr E_rewind_beyond
+              | x :: _ => if 0 <? n then BOk (replicate (Z.to_nat n) x ++ b) else BOk b
+              end
+  | BRewind n => if zlen b - n <? 0 then BErr E_rewind_beyond
+                 else if n <? 0 then BFault F_rewind          (* length_ grows over memory never written *)
+                 else BOk (skipn (Z.to_nat n) b)
+  end.
+
+Definition out_apply (m : machine) (o : Z) (op : bop) : step_result :=
   match znth (m_outs m) o with
-  | Some b => match zupd (m_outs m) o (vs_rev ++ b) with Some os => Ok (set_outs m os) | None => Fault F_internal end
   | None => Fault F_internal
+  | Some b => match buf_apply b op with
+              | BOk b' => match zupd (m_outs m) o b' with
+                          | Some os => continue (set_outs m os)
+                          | None => Fault F_internal
+                          end
+              | BErr err => stop m err
+              | BFault k => Fault k
+              end
+  end.
+
+Definition out_write (m : machine) (o : Z) (vs_rev : list Z) : result machine :=   (* vs_rev: most recent first *)
+  match out_apply m o (BWrite vs_rev) with
+  | Ok (_, m') => Ok m'
+  | Fault k => Fault k
+  | OutOfFuel => OutOfFuel
   end.
 
 Definition out_dtype (p : prog) (o : Z) : option dtype :=
@@ -672,25 +706,16 @@ Definition exec_builtin (p : prog) (e : env) (m : machine) (bytecode : Z) : step
     with_arg p m (fun o m1 =>
       match m_stack m1 with
       | [] => stop m1 E_underflow
-      | v :: s => match out_dtype p o, znth (m_outs m1) o with
-                  | Some d, Some b =>
-                    let prev := match b with [] => 0 | x :: _ => x end in
-                    match out_write (set_stack m1 s) o [add_out d prev v] with Ok m2 => continue m2 | _ => Fault F_internal end
-                  | _, _ => Fault F_internal
+      | v :: s => match out_dtype p o with
+                  | Some d => out_apply (set_stack m1 s) o (BAdd d v)
+                  | None => Fault F_internal
                   end
       end)
   else if bytecode =? CODE_WRITE_DUP then
     with_arg p m (fun o m1 =>
       match m_stack m1 with
       | [] => stop m1 E_underflow
-      | v :: s => let m2 := set_stack m1 s in
-                  match znth (m_outs m2) o with
-                  | Some [] => stop m2 E_rewind_beyond
-                  | Some (x :: b) =>
-                    if 0 <? v then match out_write m2 o (replicate (Z.to_nat v) x) with Ok m3 => continue m3 | _ => Fault F_internal end
-                    else continue m2
-                  | None => Fault F_internal
-                  end
+      | v :: s => out_apply (set_stack m1 s) o (BDup v)
       end)
   else if bytecode =? CODE_LEN_OUTPUT then
     with_arg p m (fun o m1 =>
@@ -700,17 +725,7 @@ Definition exec_builtin (p : prog) (e : env) (m : machine) (bytecode : Z) : step
     with_arg p m (fun o m1 =>
       match m_stack m1 with
       | [] => stop m1 E_underflow
-      | v :: s => let m2 := set_stack m1 s in
-                  match znth (m_outs m2) o with
-                  | Some b =>
-                    if zlen b - v <? 0 then stop m2 E_rewind_beyond
-                    else if v <? 0 then Fault F_rewind              (* length_ grows over memory never written *)
-                    else match zupd (m_outs m2) o (skipn (Z.to_nat v) b) with
-                         | Some os => continue (set_outs m2 os)
-                         | None => Fault F_internal
-                         end
-                  | None => Fault F_internal
-                  end
+      | v :: s => out_apply (set_stack m1 s) o (BRewind v)
       end)
   else if bytecode =? CODE_I then
     if can_push p m then match do_index m 0 with Some i => push p m (wrap 32 i) | None => Fault F_loopindex end else stop m E_overflow
@@ -1574,3 +1589,97 @@ Fixpoint apply_segs (fixed : bool) (p : prog) (e : env) (segs : list gseg) (m : 
 
 Definition iter_step (fixed : bool) (p : prog) (e : env) (k : nat) (m : machine) : result machine :=
   apply_segs fixed p e (repeat GStep k) m.
+
+(* ================================================================== ForthOutputBufferOf<OUT>: the growable array *)
+(* `data` is the allocated array (length = reserved_), `len` = length_.  `grow r` = (int64_t)ceil(r * resize_);
+   `junk` stands for the unspecified content of freshly allocated memory. *)
+Record gbuf := mkG { g_data : list Z; g_len : Z; g_res : Z }.
+
+Definition g_new (initial junk : Z) : gbuf := mkG (replicate (Z.to_nat initial) junk) 0 initial.
+
+Fixpoint grow_until (fuel : nat) (grow : Z -> Z) (next res : Z) : option Z :=
+  match fuel with
+  | O => None
+  | S f => if res <? next then grow_until f grow next (grow res) else Some res
+  end.
+
+Inductive gres := GOk (g : gbuf) | GErr (err : Z) | GFault (kind : Z) | GFuel.
+
+(* maybe_resize(next) *)
+Definition g_maybe_resize (grow : Z -> Z) (junk : Z) (g : gbuf) (next : Z) : gres :=
+  if g_res g <? next then
+    match grow_until (S (Z.to_nat next)) grow next (g_res g) with
+    | Some r => GOk (mkG (g_data g ++ replicate (Z.to_nat (r - g_res g)) junk) (g_len g) r)
+    | None => GFuel
+    end
+  else GOk g.
+
+(* ptr_[at + i] = vs[i] *)
+Fixpoint g_store (data : list Z) (at_ : Z) (vs : list Z) : option (list Z) :=
+  match vs with
+  | [] => Some data
+  | v :: t => match zupd data at_ v with Some d => g_store d (at_ + 1) t | None => None end
+  end.
+
+Definition g_apply (grow : Z -> Z) (junk : Z) (g : gbuf) (op : bop) : gres :=
+  match op with
+  | BWrite vs_rev =>
+    (* write_one: length_++; maybe_resize(length_); ptr_[length_-1] = v.  write_copy: next = length_ + n; maybe_resize(next); copy *)
+    let next := g_len g + zlen vs_rev in
+    match g_maybe_resize grow junk g next with
+    | GOk g1 => match g_store (g_data g1) (g_len g) (rev vs_rev) with
+                | Some d => GOk (mkG d next (g_res g1))
+                | None => GFault F_internal
+                end
+    | other => other
+    end
+  | BAdd d v =>
+    let previous := if g_len g =? 0 then Some 0 else znth (g_data g) (g_len g - 1) in
+    match previous with
+    | None => GFault F_internal
+    | Some prev =>
+      let next := g_len g + 1 in
+      match g_maybe_resize grow junk g next with
+      | GOk g1 => match zupd (g_data g1) (next - 1) (add_out d prev v) with
+                  | Some dt => GOk (mkG dt next (g_res g1))
+                  | None => GFault F_internal
+                  end
+      | other => other
+      end
+    end
+  | BDup n =>
+    if g_len g =? 0 then GErr E_rewind_beyond
+    else if 0 <? n then
+      let next := g_len g + n in
+      match g_maybe_resize grow junk g next with
+      | GOk g1 => match znth (g_data g1) (g_len g - 1) with
+                  | Some value => match g_store (g_data g1) (g_len g) (replicate (Z.to_nat n) value) with
+                                  | Some d => GOk (mkG d next (g_res g1))
+                                  | None => GFault F_internal
+                                  end
+                  | None => GFault F_internal
+                  end
+      | other => other
+      end
+    else GOk g
+  | BRewind n =>
+    let next := g_len g - n in
+    if next <? 0 then GErr E_rewind_beyond
+    else if n <? 0 then GFault F_rewind
+    else GOk (mkG (g_data g) next (g_res g))
+  end.
+
+(* what toNumpyArray() shows, most recent first *)
+Definition g_abs (g : gbuf) : outbuf := rev (firstn (Z.to_nat (g_len g)) (g_data g)).
+
+Fixpoint g_run (grow : Z -> Z) (junk : Z) (g : gbuf) (ops : list bop) : gres :=
+  match ops with
+  | [] => GOk g
+  | op :: rest => match g_apply grow junk g op with GOk g1 => g_run grow junk g1 rest | other => other end
+  end.
+
+Fixpoint buf_run (b : outbuf) (ops : list bop) : bres :=
+  match ops with
+  | [] => BOk b
+  | op :: rest => match buf_apply b op with BOk b1 => buf_run b1 rest | other => other end
+  end.
